@@ -518,3 +518,221 @@ func widthText(w int64) string {
 	}
 	return fmt.Sprintf("%d octet(s)", w)
 }
+
+// ---------------------------------------------------------------- padding shape, frame i/o bounds
+
+func init() {
+	register(&Rule{
+		Name: "padding-shape", Props: []string{"C05", "C16", "C01"}, Engine: "LIN", Floor: 4,
+		Doc: "CutPadding rejects exactly the impossible shapes: each rejecting test is a plain disjunction of comparisons from {no payload, length < 1, length > len(payload), pad >= length} (plus one comparison those imply), so no well-formed padded frame is refused; AddPadding emits pad-length octet n, the data, then n octets, with n at most 255, and the padding octets are zero (RFC 7540 s6.1)",
+		Run: rulePaddingShape,
+	})
+	register(&Rule{
+		Name: "frame-io-bounds", Props: []string{"C16", "C05", "C18"}, Engine: "LIN", Floor: 5,
+		Doc: "the frame reader enforces the size bound it was given: ReadFrameFromWithSize stores its bound before reading, checkLen rejects exactly when a bound is set and the length exceeds it, the payload is read whenever the length is positive, and the octet counts returned by the reader and the writer are 9 plus what was read / the sum of what was written",
+		Run: ruleFrameIOBounds,
+	})
+}
+
+func rulePaddingShape(p *Prog, r *Out) {
+	fd := p.decl("http2utils.CutPadding")
+	if fd == nil {
+		r.undecided("CutPadding", "?", "http2utils.CutPadding no longer resolves")
+	} else {
+		r.fn("http2utils.CutPadding")
+		subst := singleDefs(fd.Body)
+		lin := func(t map[string]int64, c int64) Lin { return Lin{T: t, C: c} }
+		allowed := map[string]string{
+			Cmp{lin(map[string]int64{"len(payload)": 1}, 0), "eq"}.String():                                    "no payload",
+			Cmp{lin(map[string]int64{"len(payload)": 1}, 0), "le"}.String():                                    "no payload",
+			Cmp{lin(map[string]int64{"length": 1}, 0), "le"}.String():                                          "length < 1",
+			Cmp{lin(map[string]int64{"len(payload)": 1, "length": -1}, 1), "le"}.String():                      "length > len(payload)",
+			Cmp{lin(map[string]int64{"length": 1, "payload[0]": -1}, 0), "le"}.String():                        "pad >= length",
+			Cmp{lin(map[string]int64{"len(payload)": 1, "length": -1, "payload[0]": 1}, 2), "le"}.String(): "len(payload) < length-pad-1 (implied by the others)",
+		}
+		n := 0
+		ast.Inspect(fd.Body, func(nd ast.Node) bool {
+			ifs, ok := nd.(*ast.IfStmt)
+			if !ok || !isRejectingBody(p, ifs.Body) {
+				return true
+			}
+			n++
+			atoms, pure := pureJunction(ifs.Cond, false)
+			bad := ""
+			if !pure {
+				bad = "the condition is not a plain disjunction of comparisons"
+			}
+			for _, a := range atoms {
+				if a.Val {
+					bad = "negated term " + p.text(a.Cond)
+					continue
+				}
+				c, ok := p.canonCmp(a.Cond, subst)
+				if !ok {
+					bad = "term " + p.text(a.Cond) + " is not an integer comparison"
+					continue
+				}
+				if _, ok := allowed[c.String()]; !ok {
+					bad = fmt.Sprintf("term `%s` (%s) rejects shapes RFC 7540 s6.1 allows, or no longer rejects an impossible one", p.text(a.Cond), c.String())
+				}
+			}
+			r.check(bad == "", fmt.Sprintf("CutPadding rejecting test %d refuses only impossible shapes", n), p.pos(ifs.Pos()), "disjunction over {no payload, length<1, length>len, pad>=length}",
+				"CutPadding's rejecting test `"+p.text(ifs.Cond)+"`: "+bad)
+			return true
+		})
+		if n < 2 {
+			r.bad("CutPadding rejecting tests", p.pos(fd.Pos()), fmt.Sprintf("only %d rejecting tests found in CutPadding", n))
+		}
+	}
+	ad := p.decl("http2utils.AddPadding")
+	if ad == nil {
+		r.undecided("AddPadding", "?", "http2utils.AddPadding no longer resolves")
+		return
+	}
+	r.fn("http2utils.AddPadding")
+	subst := singleDefs(ad.Body)
+	_ = subst
+	// n = Uint32n(K) + B with K + B <= 256 (so n <= 255) and B >= 0
+	rangeOK, resizeOK, shiftOK, padLenOK, zeroOK := false, false, false, false, false
+	randomFill := ""
+	ast.Inspect(ad.Body, func(nd ast.Node) bool {
+		switch x := nd.(type) {
+		case *ast.AssignStmt:
+			if len(x.Lhs) != 1 || len(x.Rhs) != 1 {
+				return true
+			}
+			lhs := p.text(x.Lhs[0])
+			if lhs == "n" {
+				if b, ok := ast.Unparen(x.Rhs[0]).(*ast.BinaryExpr); ok && b.Op == token.ADD {
+					base, okb := p.intConst(b.Y)
+					var k int64 = -1
+					ast.Inspect(b.X, func(m ast.Node) bool {
+						if c, ok := m.(*ast.CallExpr); ok && strings.HasSuffix(p.calleeOf(c), "Uint32n") && len(c.Args) == 1 {
+							if v, ok := p.intConst(c.Args[0]); ok {
+								k = v
+							}
+						}
+						return true
+					})
+					// Uint32n(k) is in [0, k): n <= k - 1 + base
+					rangeOK = okb && k > 0 && base >= 0 && k-1+base <= 255
+				}
+			}
+			if lhs == "b" {
+				if c, ok := x.Rhs[0].(*ast.CallExpr); ok {
+					switch p.calleeOf(c) {
+					case "http2utils.Resize":
+						resizeOK = p.linOf(c.Args[1], nil).eq(Lin{T: map[string]int64{"nn": 1, "n": 1}})
+					case "builtin.append":
+						if base, lo, hi, ok := p.sliceBounds(c.Args[0]); ok && base == "b" && lo == 0 && hi == 1 && c.Ellipsis.IsValid() && p.text(c.Args[1]) == "b" {
+							shiftOK = true
+						}
+					}
+				}
+			}
+			if squash(lhs) == "b[0]" && strings.Contains(p.text(x.Rhs[0]), "n") && p.ubKey(x.Rhs[0]) == "n" {
+				padLenOK = true
+			}
+		case *ast.CallExpr:
+			name := p.calleeOf(x)
+			if name == "builtin.clear" && len(x.Args) == 1 {
+				if se, ok := ast.Unparen(x.Args[0]).(*ast.SliceExpr); ok && p.text(se.X) == "b" && se.High == nil && se.Low != nil &&
+					p.linOf(se.Low, nil).eq(Lin{T: map[string]int64{"nn": 1}, C: 1}) {
+					zeroOK = true
+				}
+			}
+			if strings.HasSuffix(name, "rand.Read") {
+				randomFill = p.pos(x.Pos())
+			}
+		}
+		return true
+	})
+	r.check(rangeOK, "AddPadding pad length fits one octet", p.pos(ad.Pos()), "n = Uint32n(K)+B with K-1+B <= 255", "AddPadding can choose a pad length above 255: the pad-length octet wraps and the frame's padding no longer matches it")
+	r.check(resizeOK && shiftOK && padLenOK, "AddPadding layout", p.pos(ad.Pos()), "[n][data][n octets]", "AddPadding no longer builds pad-length octet n, the data, then n padding octets (Resize(b, len+n); shift by one; b[0] = n): the receiver strips the wrong number of octets")
+	r.check(zeroOK && randomFill == "", "AddPadding padding octets are zero", p.pos(ad.Pos()), "clear(b[len+1:])", "AddPadding does not zero the padding octets (random fill at "+randomFill+"): RFC 7540 s6.1 says padding octets MUST be set to zero when sending, and a receiver may treat non-zero padding as PROTOCOL_ERROR")
+}
+
+func ruleFrameIOBounds(p *Prog, r *Out) {
+	if fd := p.decl("(*FrameHeader).checkLen"); fd != nil {
+		r.fn("(*FrameHeader).checkLen")
+		ok := false
+		for _, s := range fd.Body.List {
+			if ifs, isIf := s.(*ast.IfStmt); isIf && isRejectingBody(p, ifs.Body) {
+				atoms := conjuncts(ifs.Cond, true)
+				set, over := false, false
+				for _, a := range atoms {
+					if !a.Val {
+						continue
+					}
+					if c, okc := p.canonCmp(a.Cond, nil); okc {
+						if c.Op == "ne" && c.L.eq(Lin{T: map[string]int64{"f.maxLen": 1}}) {
+							set = true
+						}
+						if c.Op == "le" && c.L.eq(Lin{T: map[string]int64{"f.maxLen": 1, "f.length": -1}, C: 1}) {
+							over = true
+						}
+					}
+				}
+				ok = set && over && len(atoms) == 2 && strings.Contains(p.text(ifs.Body), "ErrPayloadExceeds")
+			}
+		}
+		r.check(ok, "checkLen rejects exactly length > bound", p.pos(fd.Pos()), "maxLen != 0 && length > maxLen -> ErrPayloadExceeds", "FrameHeader.checkLen no longer rejects exactly when a bound is set and the frame's length exceeds it: oversized frames are read (and allocated for), or frames of exactly the negotiated size are refused")
+	} else {
+		r.undecided("(*FrameHeader).checkLen", "?", "no longer resolves")
+	}
+	if fd := p.decl("ReadFrameFromWithSize"); fd != nil {
+		r.fn("ReadFrameFromWithSize")
+		setIdx, readIdx := -1, -1
+		for i, s := range fd.Body.List {
+			if as, ok := s.(*ast.AssignStmt); ok && len(as.Rhs) == 1 {
+				if len(as.Lhs) == 1 && p.isFieldSel(as.Lhs[0], "FrameHeader", "maxLen") && p.text(as.Rhs[0]) == fd.Type.Params.List[1].Names[0].Name {
+					setIdx = i
+				}
+				if c, ok := as.Rhs[0].(*ast.CallExpr); ok && strings.Contains(p.calleeOf(c), "ReadFrom") {
+					readIdx = i
+				}
+			}
+		}
+		r.check(setIdx >= 0 && readIdx > setIdx, "reader applies the caller's bound", p.pos(fd.Pos()), "fr.maxLen = max; fr.ReadFrom(br)", "ReadFrameFromWithSize no longer stores its bound in the frame header before reading: the negotiated SETTINGS_MAX_FRAME_SIZE is not enforced on received frames")
+	} else {
+		r.undecided("ReadFrameFromWithSize", "?", "no longer resolves")
+	}
+	if fd := p.decl("(*FrameHeader).readFrom"); fd != nil {
+		r.fn("(*FrameHeader).readFrom", "(*FrameHeader).WriteTo")
+		guard, start, add := false, false, false
+		ast.Inspect(fd.Body, func(n ast.Node) bool {
+			switch x := n.(type) {
+			case *ast.IfStmt:
+				if c, ok := p.canonCmp(x.Cond, nil); ok && c.Op == "le" && c.L.eq(Lin{T: map[string]int64{"f.length": -1}, C: 1}) {
+					inspectCalls(x.Body, func(cl *ast.CallExpr) {
+						if p.calleeOf(cl) == "io.ReadFull" {
+							guard = true
+						}
+					})
+				}
+			case *ast.AssignStmt:
+				if len(x.Lhs) == 1 && p.text(x.Lhs[0]) == "rn" {
+					if x.Tok == token.DEFINE && p.ubKey(x.Rhs[0]) == "DefaultFrameSize" {
+						start = true
+					}
+					if x.Tok == token.ADD_ASSIGN && p.ubKey(x.Rhs[0]) == "n" {
+						add = true
+					}
+				}
+			}
+			return true
+		})
+		r.check(guard, "payload read whenever length > 0", p.pos(fd.Pos()), "if f.length > 0 { ReadFull }", "readFrom no longer reads the payload exactly when the length is positive: a one-octet payload stays in the stream and is parsed as the next frame header")
+		r.check(start && add, "reader reports 9 + payload octets", p.pos(fd.Pos()), "rn := 9; rn += n", "readFrom's returned count is no longer 9 plus the payload octets read")
+	}
+	if fd := p.decl("(*FrameHeader).WriteTo"); fd != nil {
+		adds := 0
+		ast.Inspect(fd.Body, func(n ast.Node) bool {
+			if as, ok := n.(*ast.AssignStmt); ok && len(as.Lhs) == 1 && p.text(as.Lhs[0]) == "wb" && as.Tok == token.ADD_ASSIGN && p.ubKey(as.Rhs[0]) == "n" {
+				adds++
+			}
+			return true
+		})
+		r.check(adds == 2, "writer reports header + payload octets", p.pos(fd.Pos()), "wb += n after each Write", "WriteTo's returned count is no longer the sum of the header and payload octets written")
+	}
+}
